@@ -39,6 +39,13 @@ NameOfPath(s) ==
 LineOK(fields) == Len(fields) \in {2, 3}
 ListOK(lines) == \A i \in 1..Len(lines) : LineOK(lines[i])
 
+\* ---- --min-count auto: the coverage model's cutoff becomes the minimum count of the build ----
+\* (io_utils::kmer_min_cutoff, get_2_fastq_path), as implemented: when the file list has at least two
+\* samples given as FASTQ pairs, `ska build --min-count auto` behaves as `--min-count c` where c is the
+\* cutoff `ska cov` reports for the FIRST files of the first two such samples; otherwise the default
+\* count of 5 is used (in particular for a single paired sample).
+AutoMinCount(nPairedSamples, covCutoffOfFirstFiles) == IF nPairedSamples >= 2 THEN covCutoffOfFirstFiles ELSE 5
+
 \* ---- read sub-sampling (--proportion-reads p): every step-th record, step = round(1/p) ----
 \* given as the integer step the driver computed; records are numbered from 0 per file
 SubSample(records, step) == SelectSeq([i \in 1..Len(records) |-> <<i - 1, records[i]>>], LAMBDA x : x[1] % step = 0)
